@@ -514,6 +514,16 @@ class TftpServer:
         # Most other implementations seem to ignore requests with an invalid
         # opcode, so we choose to do the same. We still log a debug message in
         # these cases.
+        # A UDP source port of zero means that the sender does not expect a
+        # reply (RFC 768), and sending a datagram to port zero fails. We could
+        # neither send an error packet nor run a transfer, so we ignore such a
+        # datagram like other datagrams that are not valid requests.
+        if req_addr[1] == 0:
+            logger.debug(
+                "Invalid request from %s: The source port is zero.",
+                socket_address_to_str(req_addr),
+            )
+            return
         # A request must have at least two bytes for the opcode.
         if len(req_data) < 2:
             logger.debug(
